@@ -317,3 +317,93 @@ func sweepQueued(yield func(queuedCase) bool) {
 		}
 	}
 }
+
+// A noisy neighbour: during one discovery window a few hundred malformed datagrams arrive at the bind port, paced so that no
+// receive queue overflows, with valid replies before, among and after them. Every valid reply is returned, in order.
+type noisyCase struct {
+	Noise    int `json:"malformed_datagrams"`
+	PerBurst int `json:"per_burst"`
+	GapMs    int `json:"gap_ms"`
+	WindowMs int `json:"window_ms"`
+}
+
+func checkNoisy(c noisyCase) *rp.Fail {
+	var f *rp.Fail
+	for try := 0; try < 3; try++ { // (UDP may lose datagrams on a busy machine: a failure must show three times)
+		if f = runNoisy(c); f == nil {
+			if try > 0 {
+				ev.Inconclusive(1)
+			}
+			return nil
+		}
+		c.WindowMs, c.GapMs = c.WindowMs*2, c.GapMs*2
+	}
+	return f
+}
+
+func runNoisy(c noisyCase) *rp.Fail {
+	ev.Case("noisy-neighbour", true, fmt.Sprint(c))
+	f := farm.New()
+	defer f.Close()
+	l := spec.Responses["GetDevices"]
+	valid := func(k int) []byte { return spec.Sample(l, 0x17, uint32(430000000+k), k) }
+	bcast, err := f.UDP([4]byte{127, 0, 2, 31}, 0, farm.Script(func(r farm.Received) []farm.Action {
+		a := []farm.Action{{Data: valid(0)}}
+		for k := 0; k < c.Noise; k++ {
+			d := spec.Sample(l, 0x17, uint32(530000000+k), k%5)
+			switch k % 3 {
+			case 0:
+				d = d[:40]
+			case 1:
+				d[0] = 0x18
+			default:
+				d[1] = 0x20
+			}
+			act := farm.Action{Data: d}
+			if k%c.PerBurst == 0 {
+				act.Delay = time.Duration(c.GapMs) * time.Millisecond
+			}
+			a = append(a, act)
+			if k == c.Noise/2 {
+				a = append(a, farm.Action{Data: valid(1)})
+			}
+		}
+		return append(a, farm.Action{Delay: time.Duration(c.GapMs) * time.Millisecond, Data: valid(2)}, farm.Action{Data: valid(3)})
+	}))
+	if err != nil {
+		return nil
+	}
+	u := hook.Real(hook.ClientCfg{TimeoutMs: c.WindowMs, BindIP: [4]byte{127, 0, 0, 1}, HasBroadcast: true, BroadcastIP: [4]byte{127, 0, 2, 31}, BroadcastPort: bcast.Addr.Port()})
+	var list []types.Device
+	var pn any
+	func() {
+		defer func() { pn = recover() }()
+		list, err = u.GetDevices()
+	}()
+	if pn != nil {
+		return rp.Failf("socket/panic", "GetDevices panicked: %v", pn)
+	}
+	if err != nil {
+		return rp.Failf("socket/noisy-neighbour/call-failed", "GetDevices failed: %v", err)
+	}
+	var got []uint32
+	for _, d := range list {
+		got = append(got, uint32(d.SerialNumber))
+	}
+	if fmt.Sprint(got) != fmt.Sprint([]uint32{430000000, 430000001, 430000002, 430000003}) {
+		return rp.Failf("socket/noisy-neighbour/wrong-list", "four controllers answered a discovery - the first at once, the second in the middle of %d malformed datagrams (bursts of %d, %d ms apart), two after them, all within %d ms of a %d ms window: GetDevices returned %v", c.Noise, c.PerBurst, c.GapMs, (c.Noise/c.PerBurst+2)*c.GapMs, c.WindowMs, got)
+	}
+	return nil
+}
+
+func sweepNoisy(yield func(noisyCase) bool) {
+	cases := []noisyCase{{Noise: 300, PerBurst: 25, GapMs: 25, WindowMs: 1500}, {Noise: 600, PerBurst: 20, GapMs: 15, WindowMs: 2000}}
+	if ev.Thorough() {
+		cases = append(cases, noisyCase{Noise: 1200, PerBurst: 30, GapMs: 20, WindowMs: 3000}, noisyCase{Noise: 260, PerBurst: 10, GapMs: 10, WindowMs: 1200}, noisyCase{Noise: 5000, PerBurst: 40, GapMs: 15, WindowMs: 6000})
+	}
+	for i, c := range cases {
+		if ev.Mine(i+3) && !yield(c) {
+			return
+		}
+	}
+}
